@@ -45,6 +45,10 @@ def families(tier):
         {'name': 'both-fail', 'params': {'P': 1, 'hist': 'T'}, 'weight': 1},
         {'name': 'deep-shared', 'params': {'P': 1, 'hist': 'T'}, 'weight': 1},
         {'name': 'in-subbuild', 'params': {'P': 1, 'hist': 'T'}, 'weight': 1},
+        {'name': 'same-dir', 'params': {'P': 1, 'hist': 'BT', 'reuse': True}, 'weight': 1},
+        {'name': 'in-subbuild', 'params': {'P': 1, 'hist': 'BT', 'reuse': True}, 'weight': 1},
+        {'name': 'nested-dirs', 'params': {'P': 1, 'hist': 'BT'}, 'weight': 1},
+        {'name': 'one-fails', 'params': {'P': 1, 'hist': 'BT'}, 'weight': 1},
     ]
     if tier == 'quick':
         return q
@@ -56,6 +60,9 @@ def families(tier):
         {'name': 'both-fail', 'params': {'P': 2, 'hist': 'T'}, 'weight': 3},
         {'name': 'deep-shared', 'params': {'P': 2, 'hist': 'T'}, 'weight': 3},
         {'name': 'three', 'params': {'P': 1, 'hist': 'T'}, 'weight': 4},
+        {'name': 'same-dir', 'params': {'P': 2, 'hist': 'BT', 'reuse': True}, 'weight': 3},
+        {'name': 'in-subbuild', 'params': {'P': 2, 'hist': 'BT', 'reuse': True}, 'weight': 3},
+        {'name': 'one-fails', 'params': {'P': 2, 'hist': 'BT'}, 'weight': 3},
     ]
 
 
@@ -102,13 +109,13 @@ def harness(eng, fam, P):
     try:
         w.bind({'threading': FakeThreading()})
         sig = (fam, P['hist'], 'P%d' % P['P'])
-        version = 1
+        version = 0 if P.get('reuse') else 1
         if 'B' in P['hist']:
             # a sequential, committed build first: the threaded build then meets its outputs and directories
             pi = Prog(w, w.fs, ops, contents, 0)
             pr = Prog(w, w.ref, ops, contents, 0)
             try:
-                FileBuilder.build(w.cache, 'n', pi.sequential)
+                FileBuilder.build_versioned(w.cache, 'n', {'f%d' % i: 0 for i in range(len(ops))}, pi.sequential)
             except Exception:
                 raise PathAbort()
             ref_build(w.ref, w.cache, state, pr.sequential)
